@@ -126,6 +126,26 @@ type bytecodeScope struct {
 	localTable bytecodeLocalTable
 	label      string
 	typ        bytecodeScopeType
+	// lowest index of a captured local declared in a nested scope
+	// that has already been left, -1 when there is none
+	nestedLowestCaptured int
+}
+
+// Returns the lowest index of a local captured by a closure
+// that has been declared in this scope or any scope nested in it.
+// Returns -1 when no local has been captured.
+func (s *bytecodeScope) lowestCaptured() int {
+	lowestIndex := s.nestedLowestCaptured
+	for _, local := range s.localTable {
+		if !local.hasUpvalue {
+			continue
+		}
+
+		if lowestIndex == -1 || int(local.index) < lowestIndex {
+			lowestIndex = int(local.index)
+		}
+	}
+	return lowestIndex
 }
 
 func (s *bytecodeScope) deepClone() *bytecodeScope {
@@ -134,17 +154,19 @@ func (s *bytecodeScope) deepClone() *bytecodeScope {
 		newLocalTable[key] = val.clone()
 	}
 	return &bytecodeScope{
-		localTable: newLocalTable,
-		label:      s.label,
-		typ:        s.typ,
+		localTable:           newLocalTable,
+		nestedLowestCaptured: s.nestedLowestCaptured,
+		label:                s.label,
+		typ:                  s.typ,
 	}
 }
 
 func newBytecodeScope(label string, typ bytecodeScopeType) *bytecodeScope {
 	return &bytecodeScope{
-		localTable: bytecodeLocalTable{},
-		label:      label,
-		typ:        typ,
+		localTable:           bytecodeLocalTable{},
+		label:                label,
+		typ:                  typ,
+		nestedLowestCaptured: -1,
 	}
 }
 
@@ -1837,6 +1859,8 @@ func (c *BytecodeCompiler) compileDo(body func(), catches []*ast.CatchNode, fina
 
 	c.enterScope("", scopeType)
 	body()
+	// a throw leaves the body without executing the code that closes upvalues
+	lowestCapturedInBody := c.scopes.last().lowestCaptured()
 	c.leaveScope(location.EndPos.Line)
 
 	doEndOffset := c.nextInstructionOffset()
@@ -1858,6 +1882,9 @@ func (c *BytecodeCompiler) compileDo(body func(), catches []*ast.CatchNode, fina
 	catchStartOffset := c.nextInstructionOffset()
 
 	c.registerCatch(doStartOffset, doEndOffset, catchStartOffset, false)
+	if lowestCapturedInBody != -1 {
+		c.emitCloseUpvalues(location.EndPos.Line, uint16(lowestCapturedInBody))
+	}
 
 	c.enterScope("", defaultBytecodeScopeType)
 
@@ -9367,6 +9394,14 @@ func (c *BytecodeCompiler) leaveScope(line int) {
 	currentDepth := len(c.scopes) - 1
 	varsToPop := len(c.scopes[currentDepth].localTable)
 	c.lastLocalIndex -= varsToPop
+	if currentDepth > 0 {
+		// remember captured locals of the scope being left, a throw may skip the code that closes them
+		lowest := c.scopes[currentDepth].lowestCaptured()
+		parent := c.scopes[currentDepth-1]
+		if lowest != -1 && (parent.nestedLowestCaptured == -1 || lowest < parent.nestedLowestCaptured) {
+			parent.nestedLowestCaptured = lowest
+		}
+	}
 	c.scopes[currentDepth] = nil
 	c.scopes = c.scopes[:currentDepth]
 }
